@@ -86,8 +86,11 @@ func (t *TimerBasedElectionTrigger) Stop() {
 }
 
 func (t *TimerBasedElectionTrigger) CalcTimeout(view primitives.View) time.Duration {
-	timeoutMultiplier := time.Duration(int64(math.Pow(TIMEOUT_EXP_BASE, float64(view))))
-	return timeoutMultiplier * t.minTimeout
+	timeout := float64(t.minTimeout) * math.Pow(TIMEOUT_EXP_BASE, float64(view))
+	if timeout >= float64(math.MaxInt64) { // saturate instead of wrapping around to a negative or zero timeout
+		return time.Duration(math.MaxInt64)
+	}
+	return time.Duration(timeout)
 }
 
 func triggerElections(electionChannel chan *interfaces.ElectionTrigger, height primitives.BlockHeight, view primitives.View, triggerCancelled chan struct{}, electionsFunc func()) {
